@@ -210,8 +210,8 @@ PROPS = {
         "bin_features": "moc-set/verif_hooks",
         "trusted_base": COMMON_TB + ["kill points: cargo feature verif_hooks of moc-set (std::process::abort at a named point); what survives a kill is what the OS page cache holds (MAP_SHARED stores visible at once, BufWriter content only after flush)"],
         "assumptions": COMMON_ASSUME + ["power loss / write-back ordering is out of scope", "only `kill` (abort) at a point is exercised, not `pause`: a reader started at the boundary sees the same file as after a kill there",
-            "the effect model covers `append`; chgstatus (single in-place word stores) and purge (temp file + rename) are covered by the fault-point runs on the real binary only"],
-        "rule": "every named point between two visible effects of append (6 points), chgstatus (1) and purge (3) x repetitions with small and large (19 kB > BufWriter capacity) new MOCs, after a "
+            "effect models: append (data / index / meta), chgstatus (one in-place status store per changed entry), purge (temporary file, rename, lock release); the byte-level content of the renamed file is not modelled (the listing / extract of the real file after the rename is checked on the binary)"],
+        "rule": "every named point between two visible effects of append (6 points), chgstatus (1; with one identifier, and with two identifiers killed between the two stores) and purge (3) x repetitions with small and large (19 kB > BufWriter capacity) new MOCs, after a "
                 "history make + chgstatus removed: the updater is aborted at the point, then: list / extract of every listed live id / query must succeed and return the right MOCs, the listing "
                 "must be the one before or after the update, a second updater must be refused while the lock exists, and after removing the stale lock (+ tmp) a new append must succeed and every "
                 "MOC be right. All of it is direct observation of the real binary (op line = point reached). distinct_nontrivial = distinct (update, point) pairs.",
